@@ -18,7 +18,7 @@ ANCHORS = ['phylib.io.traces:_get_subitems', 'phylib.io.traces:_find_chunks',
            'phylib.io.traces:get_ephys_reader']
 RULE = ('Layouts: flat files (.dat/.bin/.raw/.mda, header offset 0/1/7/16) for EVERY composition of n into '
         'parts >= 1 (n <= N), .npy, in-memory array, .cbin (chunk lengths 1,2,3,n; 1-3 decoder threads); '
-        'dtypes uint8/int16/uint16/int32/float32/float64; 1,2,3,5 channels; unique cell values. Per '
+        'dtypes uint8/int16/uint16/int32/float32/float64 and big-endian >i2/>f4/>u2; 1,2,3,5 channels; unique cell values. Per '
         'layout: every int in [-n,n) (int, np.int64, np.int16), every slice with bounds in {None} U [-n,n] '
         'selecting >= 1 row, every non-empty strictly increasing index set as list / int64 / int32 / '
         'uint16 array (not on cbin), each alone and with 4 column selectors (slice, reversed slice, '
@@ -38,6 +38,7 @@ ASSUMPTIONS = ['empty slices, non-unit steps, unsorted/negative index lists, lis
                'files with a trailing partial row are outside the statement: never judged',
                'cbin float data is generated with both diffs disabled (mtscomp is exact only then)']
 DTYPES = ['int16', 'float32', 'uint8', 'uint16', 'int32', 'float64']
+BE_DTYPES = ['>i2', '>f4', '>u2']        # non-native byte order (flat / npy / array backends)
 NCS = [1, 2, 3, 5]
 OFFSETS = [0, 1, 7, 16]
 NSHARDS = 16
@@ -57,7 +58,12 @@ def layouts(N, tier, seed):
                 k += 1
                 yield {'backend': 'flat', 'ext': L.FLAT_EXT[k % 4], 'offset': OFFSETS[(k // 3) % 4],
                        'dtype': dt, 'nc': NCS[(k // 2) % 4], 'parts': parts}
-        for dt in DTYPES:
+        for j, parts in enumerate(L.compositions(n)):
+            if j % 3 == n % 3:
+                k += 1
+                yield {'backend': 'flat', 'ext': L.FLAT_EXT[k % 4], 'offset': OFFSETS[k % 4], 'dtype': BE_DTYPES[k % 3],
+                       'nc': NCS[k % 4], 'parts': parts}
+        for dt in DTYPES + BE_DTYPES[:1]:
             k += 1
             yield {'backend': 'npy', 'dtype': dt, 'nc': NCS[k % 4], 'parts': [n]}
             yield {'backend': 'array', 'dtype': dt, 'nc': NCS[(k + 1) % 4], 'parts': [n]}
